@@ -45,24 +45,45 @@ package cputensor
 //@   ensures[C04] len(res) == len(dims) && forall(k, 0, len(dims)-2, res[k] == dims[k])
 //@   ensures[C04] res[len(dims)-2] == dims[len(dims)-1] && res[len(dims)-1] == dims[len(dims)-2]
 
+// PROD: inserting / removing a factor 1, or replacing a suffix by its product, keeps the product of a sequence (proved by
+// induction on the number of factors after the position)
+//@ predicate shiftedFrom(a Idx, b Idx, d Int, n Int) := forall(j, d, n, b[j+1] == a[j])
+//@ lemma shiftedShrink: forallJ(a, forallJ(b, forallI(d, forallI(n, imp(d < n && shiftedFrom(a, b, d, n), shiftedFrom(a, b, d, n - 1) && b[n] == a[n-1])))))
+//@ lemma prodInsStep: forallJ(a, forallJ(b, forallI(n, forallI(m, forallI(n2, forallI(m2, imp(m2 == m + 1 && n2 == n + 1 && m == n + 1 && 0 <= n && b[m] == a[n] && prod(b, 0, m) == prod(a, 0, n), prod(b, 0, m2) == prod(a, 0, n2))))))))
+// natTag(k) is always true: it gives the induction variable of an upward induction a term to be instantiated by
+//@ predicate natTag(k Int) := k >= 0 || k < 0
+//@ define prodInsBody(k) := forallJ(a, forallJ(b, forallI(d, forallI(n, forallI(m, imp(natTag(k) && m == n + 1 && n == d + k && 0 <= d && b[d] == 1 && sameOn(a, b, 0, d) && shiftedFrom(a, b, d, n), prod(b, 0, m) == prod(a, 0, n)))))))
+//@ induct prodIns: up prodInsBody @uses shiftedShrink, prodInsStep
+//@ lemma prodSplitStep: forallJ(a, forallI(i, forallI(n, forallI(n2, imp(n2 == n + 1 && 0 <= i && i <= n && prod(a, 0, n) == prod(a, 0, i) * prod(a, i, n), prod(a, 0, n2) == prod(a, 0, i) * prod(a, i, n2))))))
+//@ define prodSplitBody(k) := forallJ(a, forallI(i, forallI(n, imp(natTag(k) && n == i + k && 0 <= i, prod(a, 0, n) == prod(a, 0, i) * prod(a, i, n)))))
+//@ induct prodSplit: up prodSplitBody @uses prodSplitStep
+//@ define prodPosBody(k) := forallJ(a, forallI(i, forallI(n, imp(natTag(k) && n == i + k && forall(j, i, n, a[j] > 0), prod(a, i, n) > 0))))
+//@ induct prodPos: up prodPosBody
 //@ func unsqueezeDims
 //@   requires 0 <= dim && dim <= len(dims)
 //@   ensures[C06] len(res) == len(dims)+1 && res[dim] == 1
 //@   ensures[C06] forall(k, 0, dim, res[k] == dims[k]) && forall(k, dim+1, len(res), res[k] == dims[k-1])
-// PROD (paper lemma): inserting / removing a factor 1, or replacing a suffix by its product, keeps the product of a sequence
-//@   trusted prod(res, 0, len(res)) == prod(dims, 0, len(dims))
+//@   have shiftedFrom(idx(dims), idx(res0), dim, len(dims)) && natTag(len(dims) - dim)
+//@   have prod(res0, 0, len(res0)) == prod(dims, 0, len(dims)) @uses prodIns
+//@   ensures[C06] prod(res, 0, len(res)) == prod(dims, 0, len(dims))
 
 //@ func squeezeDims
 //@   requires 0 <= dim && dim < len(dims)
 //@   ensures[C06,C05] len(res) == len(dims)-1
 //@   ensures[C06,C05] forall(k, 0, dim, res[k] == dims[k]) && forall(k, dim, len(res), res[k] == dims[k+1])
-//@   trusted imp(dims[dim] == 1, prod(res, 0, len(res)) == prod(dims, 0, len(dims)))
+//@   have shiftedFrom(idx(res0), idx(dims), dim, len(res0)) && natTag(len(res0) - dim)
+//@   have imp(dims[dim] == 1, prod(res0, 0, len(res0)) == prod(dims, 0, len(dims))) @uses prodIns
+//@   ensures[C06,C05] imp(dims[dim] == 1, prod(res, 0, len(res)) == prod(dims, 0, len(dims)))
 
 //@ func flattenDims
 //@   requires 0 <= dim && dim < len(dims)
 //@   ensures[C06] len(res) == dim+1 && forall(k, 0, dim, res[k] == dims[k]) && res[dim] == prod(dims, dim, len(dims))
-//@   trusted prod(res, 0, len(res)) == prod(dims, 0, len(dims))
-//@   trusted imp(forall(k, 0, len(dims), dims[k] > 0), res[dim] > 0)
+//@   have natTag(len(dims) - dim)
+//@   have prod(dims, 0, len(dims)) == prod(dims, 0, dim) * prod(dims, dim, len(dims)) @uses prodSplit
+//@   have prod(res0, 0, len(res0)) == prod(dims, 0, len(dims))
+//@   have imp(forall(k, 0, len(dims), dims[k] > 0), prod(dims, dim, len(dims)) > 0) @uses prodPos
+//@   ensures[C06] prod(res, 0, len(res)) == prod(dims, 0, len(dims))
+//@   ensures[C06] imp(forall(k, 0, len(dims), dims[k] > 0), res[dim] > 0)
 //@   loop 0 invariant dim <= i && i <= len(dims) && nElems == prod(dims, dim, i)
 //@   loop 0 decreases len(dims) - i
 
